@@ -21,11 +21,24 @@ ARENA = 65536 * 2
 
 
 def dead_calls(g, fd, r, name):
-    """Emit one call of entry point `name` with dead descriptor fd (all other arguments valid). Returns output index."""
+    """Emit one call of entry point `name` with dead descriptor fd. Returns output index.
+    Usually all other arguments are valid; in `odd` mode the other (scalar) arguments are themselves unusual or invalid (bad
+    whence, empty or over-long paths, zero-sized buffers, zero-length vectors, odd flags): a dead descriptor must still be EBADF.
+    Pointers always stay inside guest memory."""
+    odd = r.random() < 0.4
     P, PL = 0x2000, 2  # path "zz"
     P2, PL2 = 0x2100, 2
     BUF = 0x3000
     IOV = 0x2800
+    LONG, LONGL = 0x8000, r.choice([4095, 4096, 4097, 5000, 9000])   # 0x8000.. holds 'q' * 9100 (poked by the caller)
+    if odd:
+        PL = r.choice([0, 1, 2, LONGL])
+        PL2 = r.choice([0, 1, 2, LONGL])
+        if PL > 2:
+            P = LONG
+        if PL2 > 2:
+            P2 = LONG
+    niov = r.choice([0, 1, 2]) if odd else 1
     if name == 'fd_close':
         return g.call(name, [fd])
     if name in ('fd_datasync', 'fd_sync'):
@@ -33,23 +46,25 @@ def dead_calls(g, fd, r, name):
     if name in ('fd_fdstat_get', 'fd_filestat_get', 'fd_prestat_get', 'fd_tell'):
         return g.call(name, [fd, BUF])
     if name == 'fd_prestat_dir_name':
-        return g.call(name, [fd, BUF, 64])
+        return g.call(name, [fd, BUF, r.choice([0, 1, 64]) if odd else 64])
     if name in ('fd_read', 'fd_write'):
-        return g.call(name, [fd, IOV, 1, BUF + 512])
+        return g.call(name, [fd, IOV, niov, BUF + 512])
     if name in ('fd_pread', 'fd_pwrite'):
-        return g.call(name, [fd, IOV, 1, 0, BUF + 512])
+        return g.call(name, [fd, IOV, niov, r.choice([0, 1 << 40, (1 << 63) - 1, 1 << 63, (1 << 64) - 1]) if odd else 0, BUF + 512])
     if name == 'fd_readdir':
-        return g.call(name, [fd, BUF, 512, 0, BUF + 600])
+        return g.call(name, [fd, BUF, r.choice([0, 1, 23, 24, 512]) if odd else 512, r.choice([0, 1, 1 << 40, (1 << 64) - 1]) if odd else 0, BUF + 600])
     if name == 'fd_seek':
-        return g.call(name, [fd, 0, 0, BUF])
+        return g.call(name, [fd, r.choice([0, 5, (1 << 63), (1 << 64) - 1]) if odd else 0, r.choice([0, 1, 2, 3, 4, 255, 0xffffffff]) if odd else 0, BUF])
     if name in ('path_create_directory', 'path_remove_directory', 'path_unlink_file'):
         return g.call(name, [fd, P, PL])
     if name == 'path_filestat_get':
-        return g.call(name, [fd, 0, P2, PL2, BUF])
+        return g.call(name, [fd, r.choice([0, 1, 2, 0xffffffff]) if odd else 0, P2, PL2, BUF])
     if name == 'path_open':
+        if odd:
+            return g.call(name, [fd, r.choice([0, 1, 0xffff]), P2, PL2, r.choice([0, 1, 2, 4, 8, 15, 0xffff]), r.choice([0, 1 << 1, (1 << 1) | (1 << 6), (1 << 64) - 1]), 0, r.choice([0, 1, 0x1f, 0xffff]), BUF])
         return g.call(name, [fd, 0, P2, PL2, 1, (1 << 1) | (1 << 6), 0, 0, BUF])
     if name == 'path_readlink':
-        return g.call(name, [fd, P2, PL2, BUF, 100, BUF + 200])
+        return g.call(name, [fd, P2, PL2, BUF, r.choice([0, 1, 100]) if odd else 100, BUF + 200])
     if name == 'path_rename:old':
         return g.call('path_rename', [fd, P2, PL2, 3, P, PL])
     if name == 'path_rename:new':
@@ -100,6 +115,7 @@ def main(chk):
         checks = []  # (kind, output index, expectation, detail)
         g.poke(0x2000, b'zz')
         g.poke(0x2100, b'zy')
+        g.poke(0x8000, b'q' * 9100)
         g.poke(0x2800, (0x3400).to_bytes(4, 'little') + (16).to_bytes(4, 'little'))
         g.poke(0x3400, b'0123456789abcdef')
         first_fd = 3
